@@ -13,7 +13,7 @@ ASSUMPTIONS = [
     "logging disabled",
 ]
 BOUNDS = {
-    "quick": "structures: single, unary, pair, pair+isolated, chain-3, triangle (scopes in lexical, reversed and mixed order), pair+unary, chain-3 with a unary constraint on the root, pair with variable cost, pair / chain-3 with a single-value domain; domain size 2; min and max; all start orders and FIFO interleavings",
+    "quick": "structures: single, unary, pair, pair+isolated, chain-3, triangle (scopes in lexical, reversed and mixed order), pair+unary, chain-3 with a unary constraint on the root, pair with variable cost, pair / chain-3 with a single-value domain, triangle / chain-3 whose variable names contain one another (v1, v10, v100); domain size 2; min and max; all start orders and FIFO interleavings",
     "thorough": "quick + star-3, two disconnected pairs, ternary, ternary+binary, chain-3 with variable costs, pair with domain 3 (all schedules), chain-3 with one domain of size 3 (canonical schedule), str-valued domains",
 }
 OUTSIDE = "more than 4 variables, domains larger than 3, arity above 3, float-valued tables, infinite costs"
@@ -23,7 +23,7 @@ CAP_S = {"quick": 900, "thorough": 5400}
 def jobs(tier):
     out = []
     quick = ["single", "unary", "pair", "pair_iso", "chain3", "triangle", "pair_unary", "chain3_umid", "pair_vcost", "single_vcost",
-             "chain3_rev", "triangle_rev", "triangle_mix"]
+             "chain3_rev", "triangle_rev", "triangle_mix", "triangle_names", "chain3_names"]
     for s in quick:
         for mode in ("min", "max"):
             out.append({"name": "%s-%s" % (s, mode), "spec": spec(s, mode), "start": "interleaved"})
